@@ -327,6 +327,52 @@ def oracle_c01(case, impl_out):
     return None
 
 
+def expected_pep_cutoff(case, impl_out):
+    """the PEP cutoff of the LAST pass recomputed from what the competition was handed: every peptide that is
+    evidence of a regular (non-placeholder) group is a unique peptide; the PEPs of those whose proteins are not all
+    decoys, ascending, first value whose running mean exceeds the PSM level, else 1.  None = near tie / not applicable."""
+    if "err" in impl_out or len(impl_out.get("passes", [])) < 2:
+        return None
+    last = impl_out["passes"][-1]
+    level = unrat(case["psm"])
+    peps, seen = [], set()
+    for g, ev in zip(last["comp_groups"], last["comp_infos"]):
+        if g and _all_contain(g, "OBSOLETE__"):
+            continue
+        for pep, peptide, prots in ev:
+            if peptide in seen:
+                continue
+            seen.add(peptide)
+            if not (_all_contain(prots, "REV__") or _all_contain(prots, "rev_")):
+                peps.append(unrat(pep))
+    peps.sort()
+    s, want = Fraction(0), Fraction(1)
+    for k, v in enumerate(peps):
+        s += v
+        m = s / (k + 1)
+        if m != level and abs(m - level) <= abs(level) * Fraction(1, 10**9):
+            return None
+        if m > level:
+            want = v
+            break
+    return want
+
+
+def oracle_c17(case, impl_out):
+    """the peptide-level cutoff the report of the rescue pass was built with is the C17 cutoff of that pass's PEPs
+    at the PSM-level FDR (and not a stale value, another level, or the level itself)"""
+    want = expected_pep_cutoff(case, impl_out)
+    if want is None:
+        return None
+    got = impl_out["passes"][-1].get("cutoff")
+    if got is None or got == "inf":
+        return f"the rescue pass reported with cutoff {got}, expected {float(want)}"
+    if unrat(got) != want:
+        return (f"the rescue pass counted peptides up to PEP {fl(got)}; the first PEP whose running mean exceeds the PSM level "
+                f"{fl(case['psm'])} over this pass's target peptides is {float(want)}")
+    return None
+
+
 def oracle_c06(case, impl_out):
     """every reported row is consistent with its group's evidence (statement of harness/props/C06.py)"""
     if "err" in impl_out or not impl_out.get("passes"):
@@ -339,6 +385,9 @@ def oracle_c06(case, impl_out):
     c = {"groups": last["ranked_groups"], "infos": last["ranked_infos"], "scores": last["ranked_scores"], "qvals": last["qvals"],
          "cutoff": last["cutoff"], "keepAll": case["keepAll"]}
     o = C06.P().oracle(c, {"rows": impl_out["rows"]})
+    if o:
+        return o
+    o = oracle_c17(case, impl_out)  # "at or below the peptide-level PEP cutoff": the cutoff itself, recomputed
     if o:
         return o
     seen = set()
